@@ -5,18 +5,20 @@ import "time"
 func init() {
 	reg(&prop{
 		id: "C09", pkg: "c09", prep: prepStdh("san", "noarch", "o2"),
-		rule: "differential against a baseline run (zero-filled memory, default initialize flags, fresh object, zero-filled destination/work memory, ASan build with the CPU-specific paths) of the same input under the same chunking plan. Variants: ALREADY_ZEROED over zeroed memory; LEAVE_INTERNAL_BUFFERS_UNINITIALIZED over 0xFF and over pseudo-random garbage; default flags over garbage; re-initialisation of the same memory after a complete or aborted decode of a DIFFERENT input (either flag set); destination bytes beyond wi and the work buffer pre-filled with 0xFF/garbage; the same run on the WUFFS_CONFIG__AVOID_CPU_ARCH build (portable fallbacks) and on an -O2 build without sanitizers. Compared: output bytes / pixel-buffer hash per frame and at the end / canonical token stream / hash value, every frame config and dirty rect, final status, consumed bytes, number of calls and suspensions and the first 24 per-call (status, ri, wi) records. Inputs: all 30 std kinds; EVERY single-bit corruption of every corpus file <= 160 bytes (1200 thorough) decoded over garbage memory with LEAVE_INTERNAL_BUFFERS_UNINITIALIZED (TestBitFlips); every corpus file up to 24 KiB (64 KiB thorough) cut at 32 spread positions (every position up to 64 bytes) decoded over garbage object memory, a garbage work buffer of exactly the requested length and garbage destination slack (TestTruncations); half of all drawn variants additionally get garbage work buffer and destination slack; corpus files, files from Go encoders (incl. image/jpeg at qualities 1-100), 0-2 corruptions; JPEG on the portable build only for unmodified encoder/corpus files (the property's documented IDCT exception). Non-trivial = baseline produced >= 64 output bytes / a decoded frame / >= 8 tokens / a hash; distinct by (kind, input, variant, build).",
+		rule: "differential against a baseline run (zero-filled memory, default initialize flags, fresh object, zero-filled destination/work memory, ASan build with the CPU-specific paths) of the same input under the same chunking plan. Variants: ALREADY_ZEROED over zeroed memory; LEAVE_INTERNAL_BUFFERS_UNINITIALIZED over 0xFF and over pseudo-random garbage; default flags over garbage; re-initialisation of the same memory after a complete or aborted decode of a DIFFERENT input (either flag set); destination bytes beyond wi and the work buffer pre-filled with 0xFF/garbage; the same run on the WUFFS_CONFIG__AVOID_CPU_ARCH build (portable fallbacks) and on an -O2 build without sanitizers. Compared: output bytes / pixel-buffer hash per frame and at the end / canonical token stream / hash value, every frame config and dirty rect, final status, consumed bytes, number of calls and suspensions and the first 24 per-call (status, ri, wi) records. Inputs: all 30 std kinds; EVERY single-bit corruption of every corpus file <= 160 bytes (1200 thorough) decoded over garbage memory with LEAVE_INTERNAL_BUFFERS_UNINITIALIZED (TestBitFlips); every corpus file up to 24 KiB (64 KiB thorough) cut at 32 spread positions (every position up to 64 bytes) decoded over garbage object memory, a garbage work buffer of exactly the requested length and garbage destination slack (TestTruncations); half of all drawn variants additionally get garbage work buffer and destination slack; a cpu-paths job compares the default build with the AVOID_CPU_ARCH build on hashers and deflate-based decoders over payloads of up to 200000 bytes, half of them long runs of the largest byte values (worst case of accumulators that defer a modulo); corpus files, files from Go encoders (incl. image/jpeg at qualities 1-100), 0-2 corruptions; JPEG on the portable build only for unmodified encoder/corpus files (the property's documented IDCT exception). Non-trivial = baseline produced >= 64 output bytes / a decoded frame / >= 8 tokens / a hash; distinct by (kind, input, variant, build).",
 		assumptions:   []string{"destination bytes beyond wi are not compared (undefined per doc/note/io-input-output.md); the canvas under decoded pixels is zero in both runs", "this sandbox's CPUs report sse4.2, avx2 and bmi2, so every x86 choose-alternative is reachable; the harness prints the detected features and the class arch-clause-not-exercisable-on-this-cpu appears otherwise"},
 		minNontrivial: 300,
 		quick: tier{jobs: []job{
 			{name: "determinism", run: "^TestProp$", shards: 16, checks: 100, timeout: 25 * time.Minute},
 			{name: "bit-flips", run: "^TestBitFlips$", shards: 16, checks: 1, timeout: 25 * time.Minute},
 			{name: "truncations", run: "^TestTruncations$", shards: 16, checks: 1, timeout: 25 * time.Minute},
+			{name: "cpu-paths", run: "^TestPropArch$", shards: 16, checks: 25, timeout: 25 * time.Minute},
 		}},
 		thorough: tier{jobs: []job{
 			{name: "determinism", run: "^TestProp$", shards: 16, checks: 5000, timeout: 120 * time.Minute},
 			{name: "bit-flips", run: "^TestBitFlips$", shards: 16, checks: 1, timeout: 120 * time.Minute, env: []string{"VERIF_C09_FLIPMAX=1200"}},
 			{name: "truncations", run: "^TestTruncations$", shards: 16, checks: 1, timeout: 120 * time.Minute},
+			{name: "cpu-paths", run: "^TestPropArch$", shards: 16, checks: 1500, timeout: 120 * time.Minute},
 		}},
 	})
 }
